@@ -350,6 +350,16 @@ pub extern "sysv64" fn memory_write_word(areas: *mut MemoryAreas, addr: u16, val
   memory_write_byte(areas, addr.wrapping_add(1), high);
 }
 
+/// Write a 16-bit value the way the CPU pushes it onto the stack: the high byte
+/// at addr + 1 first, then the low byte at addr.
+#[inline(never)]
+pub extern "sysv64" fn memory_push_word(areas: *mut MemoryAreas, addr: u16, value: u16) {
+  let low = (value & 0xff) as u8;
+  let high = (value >> 8) as u8;
+  memory_write_byte(areas, addr.wrapping_add(1), high);
+  memory_write_byte(areas, addr, low);
+}
+
 #[inline(never)]
 pub extern "sysv64" fn memory_read_word(areas: *mut MemoryAreas, addr: u16) -> u16 {
   let low = memory_read_byte(areas, addr) as u16;
